@@ -226,6 +226,13 @@ def cases(tier, rng, dist, focus=None):
                 steps[j] += "!%d" % rng.randint(1, reps_)
         yield {"f": "seq", "steps": steps, "data": data, "n": n, "reps": reps_, "gen": rng.choice(["tape", "tape", "sha", "rs"]),
                "seed": rng.randint(0, 10**6), "aseed": rng.randint(0, 10**9), "keep": rng.random() < 0.7}
+    # TWO LIVE GENERATORS used in alternation (two SHA256 instances with different seeds, or an instance and its deep copy taken
+    # after the first call, or two RandomStates): every call must return what it returns when its generator is used alone
+    for _ in range(16 if tier == "quick" else 160):
+        n = rng.randint(3, 6)
+        steps = [[rng.choice([1, 2]), rng.choice(["two_sample", "one_sample", "k_sample", "corr", "permute", "pwg", "s2s", "biv", "rows", "shift"])] for _ in range(rng.randint(3, 6))]
+        yield {"f": "seq2", "steps": steps, "data": [rng.randint(-4, 4) for _ in range(2 * n)], "n": n, "reps": rng.randint(1, 3), "gen": rng.choice(["sha", "sha", "sha_copy", "rs"]),
+               "seed": rng.randint(0, 10**6), "seed2": rng.randint(0, 10**6), "keep": rng.random() < 0.7}
     # every ordered pair of different kinds of draw (sign bits, shuffles, Fisher-Yates permutations) on one real generator
     for gen in ("sha", "rs"):
         for steps in (["one_sample", "one_sample"], ["one_sample", "two_sample"], ["one_sample", "shift"], ["one_sample", "permute"], ["two_sample", "one_sample"],
@@ -364,6 +371,8 @@ def run(c):
         return run_coverage(c)
     if f == "seq":
         return run_seq(c)
+    if f == "seq2":
+        return run_seq2(c)
     if f == "manyreps":
         return run_manyreps(c)
     return run_real(c)
@@ -520,6 +529,43 @@ def run_seq(c):
         a = guarded(lambda: seq_call(c["steps"][0], c, gen4, xs, xs, gs, ms)); b = guarded(lambda: seq_call(c["steps"][0], c, gen4, xs, xs, gs, ms))
         out["repeat40"] = [list(a), list(b)]
     return out
+
+
+def run_seq2(c):
+    n = c["n"]
+    def fresh_data():
+        x = np.array(c["data"][:n], dtype=float); y = np.array(c["data"][n:], dtype=float)
+        g = np.array([i % 2 for i in range(n)]); m = np.array(c["data"]).reshape(2, n)
+        return x, y, g, m
+    def gens():
+        if c["gen"] == "rs":
+            return {1: np.random.RandomState(c["seed"] % 2**32), 2: np.random.RandomState(c["seed2"] % 2**32)}
+        a = SHA256(c["seed"])
+        if c["gen"] == "sha_copy":
+            x0, y0, g0, m0 = fresh_data()
+            seq_call("one_sample", c, a, x0, y0, g0, m0)            # use it once, then copy: the copy continues as its own stream
+            return {1: a, 2: copy.deepcopy(a)}
+        return {1: a, 2: SHA256(c["seed2"])}
+    x, y, g, m = fresh_data()
+    G = gens()
+    inter = [list(guarded(lambda: seq_call(st, c, G[w], x, y, g, m))) for (w, st) in c["steps"]]
+    alone = {}
+    for which in (1, 2):
+        G2 = gens(); x2, y2, g2, m2 = fresh_data()
+        alone[which] = [list(guarded(lambda: seq_call(st, c, G2[which], x2, y2, g2, m2))) for (w, st) in c["steps"] if w == which]
+    k = {1: 0, 2: 0}; al = []
+    for (w, st) in c["steps"]:
+        al.append(alone[w][k[w]]); k[w] += 1
+    return {"inter": inter, "alone": al}
+
+
+def oracle_seq2(c, o):
+    for k, (a, b) in enumerate(zip(o["inter"], o["alone"])):
+        if a[0] != "ok" or b[0] != "ok":
+            return {"why": f"call {k} {c['steps'][k]} of two generators used in alternation raised: {str(a)[:160]} / alone {str(b)[:160]}", "cls": "sequence:raises"}
+        if not same_result(a[1], b[1]):
+            return {"why": f"two {c['gen']} generators used in alternation {c['steps']}: call {k} returned {str(a[1])[:160]}, but {str(b[1])[:160]} when its generator is used alone", "cls": "sequence:irreproducible"}
+    return None
 
 
 def oracle_seq(c, o):
@@ -1405,7 +1451,7 @@ def oracle_real(c, o):
 
 def oracle(c, o):
     return {"two_sample": oracle_two, "one_sample": oracle_one, "corr": oracle_corr, "k_sample": oracle_k, "permute": oracle_permute,
-            "pot": oracle_pot, "real": oracle_real, "prng": oracle_prng, "coverage": oracle_coverage, "seq": oracle_seq, "manyreps": oracle_manyreps}[c["f"]](c, o)
+            "pot": oracle_pot, "real": oracle_real, "prng": oracle_prng, "coverage": oracle_coverage, "seq": oracle_seq, "seq2": oracle_seq2, "manyreps": oracle_manyreps}[c["f"]](c, o)
 
 
 def nontrivial(c, o):
